@@ -268,6 +268,12 @@ func init() {
 				c09WebSocket(c)
 			}
 			fwRunner("C09", 200, 1200)(c)
+			for k := 0; k < c.Pick(6, 40); k++ {
+				id := fmt.Sprintf("highface%d", k)
+				if c.Case(id) {
+					c09HighFaceIDs(c, id, c.Rng(id))
+				}
+			}
 			if c.Batch >= 2 && c.Batch < 6 {
 				c09Lifecycle(c) // last: leaves a running daemon behind in this child process
 			}
